@@ -187,6 +187,20 @@ class BulkObservables:
         hist.scale_histogram(inverse_bin_width)
         return hist
 
+    def _check_quantity_is_method(self, quantity: str) -> None:
+        """
+        Check that 'quantity' names a callable method of Particle. The first
+        particle found in the events is used for this, so that events without
+        particles (also a leading one) are allowed.
+        """
+        for event in self.particle_objects:
+            for particle in event:
+                if not callable(getattr(particle, quantity)):
+                    raise AttributeError(
+                        f"'{quantity}' is not a callable method of Particle"
+                    )
+                return
+
     # PUBLIC CLASS METHODS
     def dNdy(
         self,
@@ -362,11 +376,7 @@ class BulkObservables:
         if num_events == 0:
             return 0
 
-        particle_method = getattr(self.particle_objects[0][0], quantity)
-        if not callable(particle_method):
-            raise AttributeError(
-                f"'{quantity}' is not a callable method of Particle"
-            )
+        self._check_quantity_is_method(quantity)
 
         particle_counter = 0
         # Fill histograms
@@ -416,11 +426,7 @@ class BulkObservables:
         if num_events == 0:
             return 0
 
-        particle_method = getattr(self.particle_objects[0][0], quantity)
-        if not callable(particle_method):
-            raise AttributeError(
-                f"'{quantity}' is not a callable method of Particle"
-            )
+        self._check_quantity_is_method(quantity)
 
         # Per-event mean over the particles inside the window, averaged over
         # the events which have at least one particle inside the window
@@ -479,11 +485,7 @@ class BulkObservables:
         if num_events == 0:
             return 0
 
-        particle_method = getattr(self.particle_objects[0][0], quantity)
-        if not callable(particle_method):
-            raise AttributeError(
-                f"'{quantity}' is not a callable method of Particle"
-            )
+        self._check_quantity_is_method(quantity)
 
         # Per-event mean over the particles inside the window, averaged over
         # the events which have at least one particle inside the window
